@@ -590,9 +590,13 @@ class Sandbox:
         """ Helper function to end any tracked patches """
         if not self._current_patches:
             return
-        patches = self._current_patches.pop()
+        # The patches stay on the stack until all of them are stopped, so that
+        # an interrupted cleanup can be finished by whoever runs this next.
+        patches = self._current_patches[-1]
         for a_patch in patches:
             a_patch.stop()
+        if self._current_patches and self._current_patches[-1] is patches:
+            self._current_patches.pop()
 
     def clear_mocks(self, reset_default_mocks=True):
         """
